@@ -381,8 +381,11 @@ def removeNastyArc (a : Acc) (m : LMap) (ins del : Bool) : R RemoveResult :=
     | none => .error .other
     | some ls =>
       if ls.contains latter then
-        .ok ⟨a.setEnt former lv (-1), m.erase1 former latter, former, latter,
-             (scores.toList.flatMap (·.toList)).filter (· > 0)⟩
+        let positive := (scores.toList.flatMap (·.toList)).filter (· > 0)
+        -- the score histogram (`score_record[0]`) is built even without `verbose`; with no positive
+        -- score it indexes an empty array: IndexError (after both views were already updated)
+        if positive.isEmpty then .error .indexError
+        else .ok ⟨a.setEnt former lv (-1), m.erase1 former latter, former, latter, positive⟩
       else .error .valueError
 
 /-! ## create_random_shuffles -/
